@@ -153,8 +153,21 @@ def run_property(pid, tier, seed, only_bounded=None, write=True, quiet=False):
         if v.known['id'] not in seen:
             seen.add(v.known['id'])
             out('KNOWN-FINDING: property=%s %s' % (pid, v.known['text']))
+    # a failed obligation without a counterexample of its own points at the failing inputs the bounded tier found, in the same
+    # run, through items that stand in for the same function (concrete witnesses of the property violation on the real code)
+    stands = dict((b['item'], b.get('stands_in_for', [])) for b in bounded_items)
+    bnew = [v for v in new if v.tier == 'B']
     for v in new:
-        path = v.write()
+        if v.tier == 'B':
+            v.write()
+    for v in new:
+        if v.tier == 'P' and not v.replayable and isinstance(v.detail, dict):
+            fn = (v.detail.get('function') or '').split('@')[0]
+            rel = [b.path for b in bnew if fn and any(fn == s or fn.endswith('.' + s) or s.endswith(fn) for s in stands.get(b.item, []))]
+            if rel:
+                v.detail['failing_inputs_found_by_the_bounded_tier'] = rel[:3]
+    for v in new:
+        path = v.path if v.tier == 'B' and v.path else v.write()
         tail = '' if v.replayable else ' no-failing-input-found'
         out('VIOLATION property=%s replay=%s%s' % (pid, path, tail))
         out('  %s tier=%s item=%s clause=%s' % (pid, v.tier, v.item, v.clause))
